@@ -191,7 +191,6 @@ func FieldPath(info *types.Info, e ast.Expr) (root *types.Var, path string) {
 	return nil, ""
 }
 
-
 // DefPosIn returns the position of the identifier that declares v inside root
 // (on an inlined declaration the syntax has positions of its own, which differ
 // from the object's recorded position); v.Pos() when it is not declared there.
